@@ -1,10 +1,11 @@
 /* C14 replay harness: runs add/remove/lookup histories through the real C functions.
  * Used (a) under valgrind against the normal scratch build (quick tier) and (b) linked against
  * the ASan+UBSan scratch build (thorough tier).  One answer line per operation:
- *   <rc> <N> <N_active> <N_allocated>
+ *   <rc> <N> <N_active> <N_allocated> <number of live particles not found under their own hash>
  * Protocol (see rv/c14.py asan_text):
  *   new tree box boundary integrator | add id hash xhex yhex zhex | rm i ks | rmh h ks | get h
- *   sethash i h | setactive k | setnvar k | rmall | integrate nsteps | tupd | addvar | end
+ *   sethash i h | setactive k | setnvar k | rmall | integrate nsteps | tupd | addvar |
+ *   addo hash m r x y z vx vy vz | set name value | step n | end
  */
 #include <stdio.h>
 #include <stdlib.h>
@@ -46,6 +47,35 @@ int main(void){
             struct reb_particle p = {0};
             p.m = (double)a; p.hash = (uint32_t)b; p.x = h2d(s1); p.y = h2d(s2); p.z = h2d(s3);
             reb_simulation_add(r, p); rc = 0;
+        }else if (!strcmp(op,"addo")){
+            /* addo hash m r x y z vx vy vz : a physically sensible particle (decimal doubles) */
+            struct reb_particle p = {0};
+            double m_, r_, x_, y_, z_, vx_, vy_, vz_;
+            sscanf(line, "%*s %lld %lf %lf %lf %lf %lf %lf %lf %lf", &a, &m_, &r_, &x_, &y_, &z_, &vx_, &vy_, &vz_);
+            p.hash = (uint32_t)a; p.m = m_; p.r = r_; p.x = x_; p.y = y_; p.z = z_; p.vx = vx_; p.vy = vy_; p.vz = vz_;
+            reb_simulation_add(r, p); rc = 0;
+        }else if (!strcmp(op,"set")){
+            char name[32]; double val = 0;
+            sscanf(line, "%*s %31s %lf", name, &val);
+            rc = 0;
+            if (!strcmp(name,"dt")) r->dt = val;
+            else if (!strcmp(name,"nactive")) r->N_active = (int)val;
+            else if (!strcmp(name,"tptype")) r->testparticle_type = (int)val;
+            else if (!strcmp(name,"safemode")){ r->ri_whfast.safe_mode = (int)val; r->ri_mercurius.safe_mode = (int)val; r->ri_saba.safe_mode = (int)val; r->ri_eos.safe_mode = (int)val; }
+            else if (!strcmp(name,"coords")) r->ri_whfast.coordinates = (int)val;
+            else if (!strcmp(name,"collision")) r->collision = (int)val;
+            else if (!strcmp(name,"merge")) r->collision_resolve = reb_collision_resolve_merge;
+            else if (!strcmp(name,"hardsphere")) r->collision_resolve = reb_collision_resolve_hardsphere;
+            else if (!strcmp(name,"keepsorted")) r->collision_resolve_keep_sorted = (int)val;
+            else if (!strcmp(name,"trackenergy")) r->track_energy_offset = (int)val;
+            else if (!strcmp(name,"box")) reb_simulation_configure_box(r, val, 1, 1, 1);
+            else if (!strcmp(name,"boundary")) r->boundary = (int)val;
+            else if (!strcmp(name,"gravity")) r->gravity = (int)val;
+            else if (!strcmp(name,"integrator")) r->integrator = (int)val;
+            else rc = -3;
+        }else if (!strcmp(op,"step")){
+            sscanf(line, "%*s %lld", &a);
+            reb_simulation_steps(r, (unsigned int)a); rc = 0;
         }else if (!strcmp(op,"rm")){
             sscanf(line, "%*s %lld %lld", &a, &b);
             rc = reb_simulation_remove_particle(r, (int)a, (int)b);
@@ -80,7 +110,16 @@ int main(void){
         /* drain messages */
         char buf[4096];
         while (reb_simulation_get_next_message(r, buf)){}
-        printf("%d %u %d %u\n", rc, r->N, r->N_active, r->N_allocated);
+        /* lookup consistency on the spot: every live particle with a non-zero hash is found under its hash, and what is
+           found carries the hash and lies inside the array */
+        int bad = 0;
+        for (unsigned int i=0; i<r->N; i++){
+            uint32_t h = r->particles[i].hash;
+            if (h==0) continue;
+            struct reb_particle* q = reb_simulation_particle_by_hash(r, h);
+            if (q==NULL || q->hash!=h || q<r->particles || q>=r->particles+r->N) bad++;
+        }
+        printf("%d %u %d %u %d\n", rc, r->N, r->N_active, r->N_allocated, bad);
     }
     if (r) reb_simulation_free(r);
     return 0;
